@@ -55,9 +55,15 @@ def run_hash(case, pname, variant, occ=0):
     return None, None
 
 
+def _job(j):
+    ci, case, pname, variant = j
+    return run_hash(case, pname, variant, occ=ci)
+
+
 def check_cases(chk, cases, profiles, full):
     variants = [{}, {'cache': False}, {'prefix': True}, {'natural': True}]
     n = 0
+    jobs = []
     for ci, case in enumerate(cases):
         if case['op'] == 'outer':
             continue
@@ -65,8 +71,9 @@ def check_cases(chk, cases, profiles, full):
             continue   # the anti-joins do not square up: rectangular inputs only (as C07 states)
         combos = [(p, v) for p in profiles for v in variants] if full else \
             [(profiles[ci % len(profiles)], variants[ci % 2]), (profiles[(ci + 1) % len(profiles)], variants[2 + ci % 2])]
-        for pname, variant in combos:
-            msg, drift = run_hash(case, pname, variant, occ=ci)
+        jobs += [(ci, case, pname, variant) for pname, variant in combos]
+    for (ci, case, pname, variant), (msg, drift) in zip(jobs, common.pmap(_job, jobs)):
+        if True:
             chk.count(('hash', ci, pname, json.dumps(variant, sort_keys=True)))
             chk.replayed += 1
             n += 1
